@@ -112,6 +112,7 @@ func (tr *Tr) mergeStates(sts []*State) *State {
 		return sts[0].copy()
 	}
 	out := &State{heap: map[string]*HeapV{}, defers: map[*ssa.Defer]Term{}, owned: map[string]ownedCell{}}
+	out.prov = &prov{kind: "join", preds: append([]*State{}, sts...)}
 	for k, v := range sts[0].owned {
 		same := true
 		for _, s := range sts[1:] {
@@ -348,22 +349,24 @@ func (a *Act) blockIn(b *ssa.BasicBlock) *State {
 		a.assumeWF(hs, phi.Type(), c, 1)
 	}
 	mods, all := a.loopMods(li)
-	for _, name := range sortedKeys(tr.comps) {
+	preHavoc := hs.copy()
+	hs.prov = &prov{kind: "havoc", prev: preHavoc, all: all, mods: mods, hint: "loop",
+		keepValue: func(key []Term) Term { return tr.preExisting(key[0]) }}
+	for name := range hs.heap {
 		c := tr.comps[name]
+		if c == nil {
+			continue
+		}
 		if c.local && !mods[name] {
-			continue // private cells cannot be written by callees
+			continue
 		}
 		if !all && !mods[name] {
 			continue
 		}
-		prev := tr.heapOf(hs, c)
+		delete(hs.heap, name)
+		nh := tr.heapOf(hs, c)
 		if c.local {
-			hs.heap[name] = tr.newHeapBase(c, "loop_"+name)
-			tr.firstIterHints = append(tr.firstIterHints, Implies(hs.reach, Eq(tr.read(hs.heap[name]), tr.read(prev))))
-		} else if c.value {
-			hs.heap[name] = tr.heapFrame(prev, func(key []Term) Term { return tr.preExisting(key[0]) }, "loop_"+name)
-		} else {
-			tr.havocCells(hs, c, "loop")
+			tr.firstIterHints = append(tr.firstIterHints, Implies(hs.reach, Eq(tr.read(nh), tr.read(tr.heapOf(preHavoc, c)))))
 		}
 	}
 	na := tr.freshConst("alloc_loop", "Int")
@@ -375,6 +378,11 @@ func (a *Act) blockIn(b *ssa.BasicBlock) *State {
 		}
 	}
 	li.headSt = hs
+	if a.contract != nil && a.parent == nil {
+		for _, dc := range a.contract.loopDecr[li.ord] {
+			li.measure = append(li.measure, a.evalSpecInt(hs, dc.expr, li))
+		}
+	}
 	for _, inv := range li.invs {
 		g := inv.eval(a, hs)
 		if inv.cand != nil {
@@ -443,6 +451,13 @@ func (a *Act) backEdge(st *State, p, h *ssa.BasicBlock) {
 		if o != nil {
 			o.Cand = inv.cand
 		}
+	}
+	if len(li.measure) > 0 {
+		var after []Term
+		for _, dc := range a.contract.loopDecr[li.ord] {
+			after = append(after, a.evalSpecInt(st, dc.expr, li))
+		}
+		a.obligeNamed(st, "decreases", fmt.Sprintf("loop%d", li.ord), lexLess(after, li.measure))
 	}
 	for _, instr := range h.Instrs {
 		phi, ok := instr.(*ssa.Phi)
@@ -587,4 +602,31 @@ func countRunDefers(fn *ssa.Function) int {
 		}
 	}
 	return n
+}
+
+// lexLess: tuple a is lexicographically smaller than b, the decreasing component of b being >= 0.
+func lexLess(a, b []Term) Term {
+	var alts []Term
+	for k := range b {
+		if k >= len(a) {
+			break
+		}
+		var cs []Term
+		for j := 0; j < k; j++ {
+			cs = append(cs, Eq(a[j], b[j]))
+		}
+		cs = append(cs, app("<", a[k], b[k]), app(">=", b[k], "0"))
+		alts = append(alts, And(cs...))
+	}
+	return Or(alts...)
+}
+
+func (a *Act) obligeNamed(st *State, kind, what string, goal Term) *Obligation {
+	fname := fnName(a.fn)
+	base := fmt.Sprintf("%s/%s/«%s»", fname, kind, what)
+	a.tr.oblCount[base]++
+	loc, _ := a.srcLine(a.curPos)
+	o := &Obligation{Name: fmt.Sprintf("%s#%d", base, a.tr.oblCount[base]), Kind: kind, Fn: fname, Pos: loc, Src: what, Guard: st.reach, Goal: goal}
+	a.tr.obls = append(a.tr.obls, o)
+	return o
 }
